@@ -1,0 +1,23 @@
+//go:build verif
+
+package chacha20poly1305
+
+// Verification hooks (build tag "verif" only; nothing here is compiled otherwise).
+// Used by /verif checks C01, C02 and C53 to drive the portable Go implementation
+// directly, whatever the CPU dispatch selects.
+
+// VerifC01SealGeneric calls the portable sealGeneric with the given 32-byte key and
+// 12-byte nonce.
+func VerifC01SealGeneric(key, dst, nonce, plaintext, additionalData []byte) []byte {
+	c := new(chacha20poly1305)
+	copy(c.key[:], key)
+	return c.sealGeneric(dst, nonce, plaintext, additionalData)
+}
+
+// VerifC01OpenGeneric calls the portable openGeneric with the given 32-byte key and
+// 12-byte nonce. Like Open it requires len(ciphertext) >= 16.
+func VerifC01OpenGeneric(key, dst, nonce, ciphertext, additionalData []byte) ([]byte, error) {
+	c := new(chacha20poly1305)
+	copy(c.key[:], key)
+	return c.openGeneric(dst, nonce, ciphertext, additionalData)
+}
